@@ -177,6 +177,7 @@ func run14(c *fw.Ctx) {
 	rec(nil)
 	argBuffer(c)
 	repeatFamily(c)
+	keptInvoker(c)
 	for _, f := range fns {
 		c.Family(f.name, fmt.Sprintf("%d argument tuples x 4 call paths x %d histories x recovery on/off", len(tuples(f)), len(hists)))
 		for _, h := range hists {
